@@ -11,6 +11,7 @@ from ..core import rule, AnalysisError
 from ..engine import emit, typestate
 from ..engine.facts import dotted, const, src, walk_func
 from . import skeletons as sk
+from .common import pn, access_paths
 from . import c13  # registers skeleton-typestate and runtime-pairing for C05
 
 
@@ -179,7 +180,8 @@ def signature_fields(ctx):
     """ParseFunc reads every ast.arguments field for the parameter kinds of the statement and get_argument_expressions consumes every attribute it stores"""
     db = ctx.db
     fn = db.func("pyparser.ParseFunc.visit_FunctionDef")
-    read = {n.attr for n in walk_func(fn) if isinstance(n, ast.Attribute) and src(n.value) == "node.args"}
+    acc = access_paths(fn, {pn(fn, 1): "node"})
+    read = {p_[len("node.args."):] for p_ in acc if p_.startswith("node.args.") and "." not in p_[len("node.args."):] and "[" not in p_[len("node.args."):]}
     for f in ("args", "defaults", "vararg", "kwonlyargs", "kw_defaults", "kwarg"):
         ctx.check(f in read, "reads:" + f, db.where(fn), "ParseFunc.visit_FunctionDef never reads node.args.%s: that parameter kind is dropped from def signatures" % f, "reads node.args.%s" % f)
     stored = {n.attr for n in walk_func(fn) if isinstance(n, ast.Attribute) and isinstance(n.ctx, ast.Store) and src(n.value) == "self.listener"}
@@ -189,8 +191,12 @@ def signature_fields(ctx):
         ctx.check(a in stored, "stores:" + a, db.where(fn), "ParseFunc no longer stores listener.%s" % a, "stores listener.%s" % a)
         ctx.check(a in used, "uses:" + a, db.where(g), "get_argument_expressions never uses self.%s: those parameters vanish from the emitted signature" % a, "uses self.%s" % a)
     # vararg / kwarg names end up in argnames / kwargnames (so they are declared in the def's scope)
-    apps = [src(n) for n in walk_func(fn) if isinstance(n, ast.Call) and isinstance(n.func, ast.Attribute) and n.func.attr == "append"]
-    ctx.check(any("argnames.append(node.args.vararg" in a for a in apps) and any("kwargnames.append(node.args.kwarg" in a for a in apps), "names-include-star-args", db.where(fn),
+    apps = [n for n in walk_func(fn) if isinstance(n, ast.Call) and isinstance(n.func, ast.Attribute) and n.func.attr == "append" and isinstance(n.func.value, ast.Name) and len(n.args) == 1]
+    stored_as = {dotted(s.targets[0]): s.value.id for s in walk_func(fn) if isinstance(s, ast.Assign) and isinstance(s.value, ast.Name) and (dotted(s.targets[0]) or "").startswith("self.listener.")}
+
+    def _appended(listattr, field):
+        return any(stored_as.get("self.listener." + listattr) == n.func.value.id and any(p_.startswith("node.args." + field) for p_ in access_paths(fn, {pn(fn, 1): "node"}, within=[n.args[0]])) for n in apps)
+    ctx.check(_appended("argnames", "vararg") and _appended("kwargnames", "kwarg"), "names-include-star-args", db.where(fn),
               "*args/**kwargs names are not appended to argnames/kwargnames", "vararg and kwarg names recorded")
     # as_call passes keyword-only arguments by name
     kwonly = [n for n in ast.walk(g) if isinstance(n, ast.If) and src(n.test) == "as_call"]
